@@ -390,11 +390,15 @@ func run(c string) string {
 			return "ok - " + tot
 		}
 		return "ok " + strings.Join(ls, ",") + " " + tot
-	case "fmtcmd":
+	case "fmtcmd", "fmtbcmd":
 		if len(f) != 2 {
 			return "badcase"
 		}
-		r := runBin(lib.ParseBytes(f[1]), "fmt")
+		args := []string{"fmt"}
+		if f[0] == "fmtbcmd" {
+			args = append(args, "-b")
+		}
+		r := runBin(lib.ParseBytes(f[1]), args...)
 		if crashed(r.stderr) || r.exit < 0 {
 			return "panic crash"
 		}
@@ -613,6 +617,17 @@ func evalScript(script []byte) (chain []*big.Int, doubles, adds int, msg string)
 	return chain, doubles, adds, ""
 }
 
+func hasDup(c []*big.Int) bool {
+	seen := map[string]bool{}
+	for _, x := range c {
+		if seen[x.String()] {
+			return true
+		}
+		seen[x.String()] = true
+	}
+	return false
+}
+
 func sameChain(a, b []*big.Int) bool { return lib.EqualInts(a, b) }
 
 func weightedCost(add, dbl *big.Rat, doubles, adds int) *big.Rat {
@@ -822,13 +837,18 @@ func oracle(c, res string) string {
 				return msg
 			}
 		}
-	case "fmtcmd":
+	case "fmtcmd", "fmtbcmd":
 		if strings.HasPrefix(res, "panic") {
 			return "fmt crashed"
 		}
 		if strings.HasPrefix(res, "ok ") {
 			// formatting does not change the chain
 			c1, _, _, m1 := evalScript(lib.ParseBytes(f[1]))
+			if f[0] == "fmtbcmd" && m1 == "" && hasDup(c1) {
+				// acc.Build names values: a script whose chain repeats a value is outside its contract
+				// (C04: pairwise distinct values); search never prints one
+				return ""
+			}
 			c2, _, _, m2 := evalScript(lib.ParseBytes(strings.TrimPrefix(res, "ok ")))
 			if (m1 == "") != (m2 == "") || (m1 == "" && !sameChain(c1, c2)) {
 				return "fmt output evaluates differently from its input: " + m1 + " / " + m2
@@ -852,7 +872,7 @@ func nontrivial(c, res string) bool {
 		return !strings.HasSuffix(res, " "+lib.Bytes([]byte("return  1\n")))
 	case "evalcmd":
 		return !strings.HasPrefix(res, "ok - ")
-	case "fmtcmd":
+	case "fmtcmd", "fmtbcmd":
 		return len(res) > 40
 	}
 	return false
@@ -1031,6 +1051,7 @@ func gen(tier string, r *lib.Rand, emit func(string)) {
 			emit(fmt.Sprintf("report %s %s", s.head(), encOps(o.ops)))
 			emit("evalcmd " + lib.Bytes(o.proc.stdout))
 			emit("fmtcmd " + lib.Bytes(o.proc.stdout))
+			emit("fmtbcmd " + lib.Bytes(o.proc.stdout))
 		}
 		// the ensemble itself in the model: only where Go's sort.Slice is stable (see dispatch/C14.v)
 		if n, bad := evalExpr(s.expr); o.class != "ok" || (bad == 0 && n.BitLen() <= 20 && fullBudget > 0) {
@@ -1044,6 +1065,41 @@ func gen(tier string, r *lib.Rand, emit func(string)) {
 		"x = 2*1\nreturn x << 0", "return (1 + 1) + (1 + 1)", "a = 1 + 1\na = a + 1\nreturn a"} {
 		emit("evalcmd " + lib.Bytes([]byte(src)))
 		emit("fmtcmd " + lib.Bytes([]byte(src)))
+		emit("fmtbcmd " + lib.Bytes([]byte(src)))
+	}
+}
+
+// neighbours of a case: the same expression with other weights and other -p, and nearby targets with the
+// same configuration (every neighbour is observed afresh from the binary, like a generated case)
+func neighbours(c string, r *lib.Rand, emit func(string)) {
+	f := strings.Split(c, " ")
+	if len(f) < 5 {
+		return
+	}
+	switch f[0] {
+	case "search", "select", "report", "full":
+	default:
+		return
+	}
+	s := parseSpec(f[1:5])
+	var specs []spec
+	for i := 0; i < 4; i++ {
+		specs = append(specs, spec{s.expr, s.p, weightSetWide[r.Intn(len(weightSetWide))], weightSetWide[r.Intn(len(weightSetWide))]})
+	}
+	specs = append(specs, spec{s.expr, otherP(s.p, r.Intn(5)), s.add, s.dbl}, spec{s.expr, s.p, s.dbl, s.add})
+	if n, bad := evalExpr(s.expr); bad == 0 && n.Sign() > 0 && n.BitLen() <= 64 {
+		for _, d := range []int64{-2, -1, 1, 2} {
+			m := new(big.Int).Add(n, big.NewInt(d))
+			if m.Sign() > 0 {
+				specs = append(specs, spec{m.String(), s.p, s.add, s.dbl})
+			}
+		}
+		specs = append(specs, spec{new(big.Int).Lsh(n, 1).String(), s.p, s.add, s.dbl},
+			spec{new(big.Int).SetBit(new(big.Int).Lsh(n, 1), 0, 1).String(), s.p, s.add, s.dbl})
+	}
+	for _, ns := range specs {
+		o := observe(ns, true)
+		emit(searchCase(ns, o))
 	}
 }
 
@@ -1054,5 +1110,6 @@ func main() {
 		Run:        run,
 		Oracle:     oracle,
 		Nontrivial: nontrivial,
+		Neighbours: neighbours,
 	})
 }
